@@ -63,6 +63,13 @@ EllOK(r) ==
   /\ (IsPole90(r.phi) => r.pbeq)                            \* "such that InverseIsometricLatitude returns the original value"
   /\ Good(r.rip, 2 * TolAng(r.F))
 
+\* The global instantiations AuxLatitude::WGS84() (which = 0) and Ellipsoid::WGS84() (which = 1): "the parameters for the WGS84
+\* ellipsoid" are a = 6378137 m and f = 1/298.257223563 (Constants.hpp).  a is logged in nanometres and 1/f in units of 1e-9 as
+\* limbs <<hi, lo>> = hi * 10^9 + lo; every inspector and conversion agrees bit for bit with an object built from those constants.
+WGS84A == <<6378137, 0>>
+WGS84RF == <<298, 257223563>>
+SingOK(r) == r.which \in {0, 1} /\ r.a = WGS84A /\ r.rf = WGS84RF /\ \A i \in DOMAIN r.same : r.same[i] = 1
+
 \* flattening and eccentricity interconversions
 ElfOK(r) ==
   /\ AllGood(r.to, TolRel(r.F)) /\ AllGood(r.back, 2 * TolRel(r.F)) /\ AllGoodOrSkipped(r.def, TolRel(r.F))
